@@ -83,14 +83,8 @@ func (v *Vue) evalVFor(ctx VueContext, node *html.Node, nodes []*html.Node, dept
 			return result, skipCount, err
 		}
 
-		for _, n := range loopNodes {
-			if err := v.evalVHtml(ctx, n); err != nil {
-				return result, skipCount, err
-			}
-			if _, err := v.evalAttributes(ctx, n); err != nil {
-				return result, skipCount, err
-			}
-		}
+		// loopNodes are fully evaluated (v-html, attributes and children were processed
+		// inside each iteration's scope); they are data now and must not be evaluated again.
 
 		result = append(result, loopNodes...)
 
